@@ -39,6 +39,12 @@ ASSUMPTIONS = [
     "as a group item is held by reference – is kept out of the value model by never mutating an object that is held in "
     "two places (such operations are skipped); `get_group_list()` returns the live internal list (not exercised as a "
     "mutation channel)",
+    "exceptions raised by argument objects are outside the Lean model (tags and values are strings there): a value / tag / "
+    "index whose str() / int() / == / __index__ raises (Exception and BaseException subclasses, library error classes "
+    "included) or returns a non-str, a mapping or iterable argument whose iteration raises after k entries - at every "
+    "position and nesting depth of the call's arguments - are covered by the oracle and, for 'a call that raised changed "
+    "nothing', by the state comparison of the correspondence; the clause checked is the property's 'fails and leaves the "
+    "container unchanged' generalised to EVERY operation that raises for whatever reason, for every live container",
     "FIXMessage instances used as group items (their __repr__ differs from __str__) are outside the model",
     "pickle: default object pickling of the instance dict is modelled as the identity and compared on the implementation",
     "CPython's int(str) for non-ASCII input is modelled from two character tables read off the running interpreter",
@@ -80,10 +86,143 @@ def class_table():
     }
 
 
+class Boom(Exception):
+    """raised by a misbehaving argument object (not a library error)"""
+
+
+class HardBoom(BaseException):
+    """the same, outside the Exception hierarchy (like asyncio.CancelledError / KeyboardInterrupt)"""
+
+
+def boom_classes():
+    E = _lib()[0]
+    return {"Boom": Boom, "HardBoom": HardBoom, "KeyError": KeyError, "TypeError": TypeError, "AttributeError": AttributeError,
+            "ValueError": ValueError, "StopIteration": StopIteration, "MemoryError": MemoryError, "RecursionError": RecursionError,
+            "FIXMessageError": E.FIXMessageError, "TagNotFoundError": E.TagNotFoundError, "DuplicatedTagError": E.DuplicatedTagError}
+
+
+class Hostile:
+    """an argument object every conversion of which fails: str() raises (or returns a non-str), and so do int(), ==,
+    and use as an index"""
+
+    def __init__(self, exc, how="str"):
+        self._exc, self._how = exc, how
+
+    def _fail(self, *a):
+        raise boom_classes()[self._exc]("conversion of an argument object failed")
+
+    def __str__(self):
+        if self._how == "nonstr":
+            return 5  # str() turns this into TypeError
+        self._fail()
+
+    __int__ = __index__ = __eq__ = __ne__ = __float__ = __bool__ = __len__ = _fail
+    __hash__ = object.__hash__  # usable as a dict key by the caller; the container's str(key) then fails
+
+    def __repr__(self):
+        return f"<Hostile {self._exc}>"
+
+
+class Odd:
+    """a well-behaved object that is neither str nor number: str() gives the text (possibly '' or a non-canonical
+    spelling), int() is not defined"""
+
+    def __init__(self, text):
+        self._text = text
+
+    def __str__(self):
+        return self._text
+
+    def __repr__(self):
+        return f"<Odd {self._text!r}>"
+
+
+class RaisingDict(dict):
+    """a mapping whose iteration breaks midway: items() / iteration yield `after` entries, then raise"""
+
+    def __init__(self, d, after, exc):
+        super().__init__(d)
+        self._after, self._exc = after, exc
+
+    def _gen(self, it):
+        for n, x in enumerate(it):
+            if n >= self._after:
+                raise boom_classes()[self._exc]("mapping iteration failed")
+            yield x
+        raise boom_classes()[self._exc]("mapping iteration failed")
+
+    def items(self):
+        return self._gen(dict.items(self))
+
+    def keys(self):
+        return self._gen(dict.keys(self))
+
+    def values(self):
+        return self._gen(dict.values(self))
+
+    def __iter__(self):
+        return self._gen(dict.__iter__(self))
+
+
+def raising_iter(items, after, exc):
+    for n, x in enumerate(items):
+        if n >= after:
+            break
+        yield x
+    raise boom_classes()[exc]("iteration of the groups argument failed")
+
+
+def is_hostile_op(op):
+    """does the operation carry an argument object whose conversion / iteration raises"""
+    js = json.dumps(op)
+    if not ('"boom"' in js or '"badmap"' in js or '"baditer"' in js or (op[0] == "addgroup" and isinstance(op[4], dict))):
+        return False
+    # a dict literal that spells one key twice keeps only the LAST value: the object may have vanished from the argument
+    cmd = op[0]
+
+    def obj(j):
+        return isinstance(j, dict) and "boom" in j
+
+    def lit(spec):
+        if isinstance(spec, dict):
+            if "badmap" in spec:
+                return True
+            return False  # named caller-side dicts never hold such objects
+        return any(obj(k) or obj(v) or (isinstance(v, dict) and "list" in v and items(v["list"])) for k, v in dedup_literal(spec))
+
+    def items(spec):
+        if isinstance(spec, dict):
+            return "baditer" in spec
+        return any(item(i) for i in spec)
+
+    def item(i):
+        if "badmap" in i:
+            return True
+        return "dict" in i and lit(i["dict"])
+
+    if cmd in ("init", "initmsg"):
+        return lit(op[-1])
+    if cmd == "addgroup":
+        return obj(op[2]) or isinstance(op[4], dict) or item(op[3])
+    if cmd == "setgroup":
+        return obj(op[2]) or items(op[3])
+    if cmd == "eqdict":
+        return any(obj(k) or obj(v) for k, v in op[2])  # (keys are never spelled twice with such a value by the generator)
+    return True
+
+
+MUTATORS = ("set", "setitem", "del", "addgroup", "setgroup", "init", "initmsg", "iterreplace")
+ANY_ERROR = "<any exception>"
+
+
 def to_py(j):
     """JSON object description -> Python object"""
     E, FMsg, FTag, FIXMessage, FIXContainer = _lib()
+    if "boom" in j:
+        return Hostile(j["boom"], j.get("how", "str"))
     (k, v), = j.items()
+    if k == "odd":
+        return Odd(v)
     if k == "i":
         return int(v)
     if k == "s":
@@ -144,6 +283,8 @@ def cls_tok(k) -> str:
 
 def obj_tok(o) -> str:
     FTag = _lib()[2]
+    if isinstance(o, Hostile):
+        return "?"
     if isinstance(o, FTag):
         return "f:" + hx(o.value)
     if isinstance(o, enum.Enum):
@@ -164,6 +305,8 @@ def val_tok(v) -> str:
 
 
 def default_tok(d) -> str:
+    if isinstance(d, Hostile):
+        return "?"
     if isinstance(d, type):
         return cls_tok(d)
     if type(d) is str:
@@ -211,6 +354,8 @@ def to_json(o):
         return {"none": 1}
     if isinstance(o, bytes):
         return {"bytes": o.hex()}
+    if isinstance(o, Odd):
+        return {"odd": str(o)}
     raise ValueError(o)
 
 
@@ -231,6 +376,13 @@ class _Shared:
 class _Bad:
     def __init__(self, obj):
         self.obj = obj
+
+
+class _Raising:
+    """an argument whose iteration raises midway (mapping or iterable); never tokenised – the model has no such input"""
+
+    def __init__(self, real):
+        self.real = real
 
 
 class _Persistent:
@@ -258,6 +410,8 @@ def lit_to_py(spec, impl):
     value: object | {"list": items-spec};  items-spec: [item…] | {"newlist": name, "items": […]} | {"uselist": name}
     item: {"dict": lit} | {"ref": "name/…"[, "sub": true]} (deep copy) | {"share": name} (the live object itself)
           | {"newdict"/"usedict": …} | {"bad": obj}"""
+    if isinstance(spec, dict) and "badmap" in spec:
+        return _Raising(RaisingDict(_unwrap(lit_to_py(spec["badmap"], impl)), spec["after"], spec["exc"]))
     if isinstance(spec, dict):
         if "usedict" in spec:
             if spec["usedict"] not in impl.pdicts:
@@ -279,6 +433,9 @@ def lit_to_py(spec, impl):
 
 
 def items_to_py(spec, impl):
+    if isinstance(spec, dict) and "baditer" in spec:
+        real = _unwrap([item_to_py(i, impl) for i in spec["baditer"]])
+        return _Raising(raising_iter(real, spec["after"], spec["exc"]))
     if isinstance(spec, dict):
         if "uselist" in spec:
             if spec["uselist"] not in impl.plists:
@@ -295,6 +452,8 @@ def items_to_py(spec, impl):
 def item_to_py(i, impl):
     if "dict" in i:
         return lit_to_py(i["dict"], impl)
+    if "badmap" in i:
+        return lit_to_py(i, impl)
     if "newdict" in i or "usedict" in i:
         return lit_to_py(i, impl)
     if "share" in i:
@@ -332,7 +491,7 @@ def _unwrap(x):
     """strip the harness wrappers before handing a structure to the implementation"""
     if isinstance(x, (_Copied, _Bad, _Shared)):
         return x.obj
-    if isinstance(x, _Persistent):
+    if isinstance(x, (_Persistent, _Raising)):
         return x.real
     if isinstance(x, dict):
         return {k: _unwrap(v) for k, v in x.items()}
@@ -346,6 +505,8 @@ def _held_containers(x, acc):
     FIXContainer = _lib()[4]
     if isinstance(x, _Shared):
         acc.append(x.obj)
+    elif isinstance(x, _Raising):
+        pass
     elif isinstance(x, _Persistent):
         _held_containers(x.real, acc)
     elif isinstance(x, FIXContainer):
@@ -360,6 +521,8 @@ def _held_containers(x, acc):
 
 
 def dict_toks(d, impl=None):
+    if isinstance(d, _Raising):
+        return ["?"]
     if isinstance(d, _Persistent):
         d = d.real
     toks = ["{"]
@@ -374,6 +537,8 @@ def dict_toks(d, impl=None):
 
 
 def list_toks(v, impl=None):
+    if isinstance(v, _Raising):
+        return ["?"]
     if isinstance(v, _Persistent):
         v = v.real
     return ["["] + [t for i in v for t in item_toks(i, impl)] + ["]"]
@@ -381,6 +546,8 @@ def list_toks(v, impl=None):
 
 def item_toks(i, impl=None):
     FIXContainer = _lib()[4]
+    if isinstance(i, _Raising):
+        return ["?"]
     if isinstance(i, _Persistent):
         i = i.real
     if isinstance(i, dict):
@@ -498,9 +665,18 @@ class Impl:
         E, FMsg, FTag, FIXMessage, FIXContainer = _lib()
         cmd = op[0]
         try:
-            return self._run(cmd, op, FIXMessage, FIXContainer)
+            reply, line = self._run(cmd, op, FIXMessage, FIXContainer)
         except LookupError:
             return "bad-op", "cont.bad"
+        if is_hostile_op(op):
+            # an argument object whose conversion raises is outside the model (values are strings there): a call that
+            # raised is no model step at all (the state comparison that follows shows whether anything changed); a
+            # call that did NOT raise has no counterpart and is reported as it is (`pong` is what the model answers)
+            self.last_hostile = reply
+            if cmd not in MUTATORS:
+                return "pong", "ping"  # a reader may or may not touch the object; only "nothing changed" is compared
+            return ("pong" if isinstance(reply, str) and reply.startswith("err ") else reply), "ping"
+        return reply, line
 
     def _run(self, cmd, op, FIXMessage, FIXContainer):
         def guard(f, okfmt=lambda r: "ok"):
@@ -508,7 +684,9 @@ class Impl:
                 r = f()
             except RecursionError:
                 return "err Recursion"
-            except Exception as e:  # noqa
+            except (KeyboardInterrupt, SystemExit):
+                raise
+            except BaseException as e:  # noqa  (HardBoom: a BaseException raised by an argument object)
                 return "err " + kind_of(e)
             return okfmt(r)
 
@@ -636,6 +814,9 @@ class Impl:
             item = item_to_py(op[3], self)
             o = need_own(op[1], item)
             idx = op[4]
+            if isinstance(idx, dict):  # an index that is not an int (float, None, an object whose __index__ raises)
+                hidx = to_py(idx)
+                return guard(lambda: o.add_group(t, _unwrap(item), hidx)), "ping"
             toks = " ".join(item_toks(item, self))
             real = _unwrap(item)
             line = f"cont.addgroup {op[1]} {obj_tok(t)} {-1 if idx is None else idx} {toks}"
@@ -757,6 +938,10 @@ def run_sequences(seqs, drv=None):
                 al["ops_with_shared_item_object"] += 1
             if op[0] in CALLER_OPS:
                 al["caller_side_mutations"] += 1
+            if is_hostile_op(op):
+                al["ops_with_raising_argument_object"] = al.get("ops_with_raising_argument_object", 0) + 1
+                k = "raising_argument:" + op[0] + ":" + str(getattr(impl, "last_hostile", "?"))[:40]
+                stats["replies"][k] = stats["replies"].get(k, 0) + 1
             if impl.sharing and any(v > 1 for v in impl.multiplicity().values()):
                 al["states_with_an_object_held_twice"] += 1
             for o in impl.store.values():
@@ -798,10 +983,10 @@ CLEAN_TAGS = [J_i(1), J_i(2), J_i(3), J_i(5), J_i(6), J_i(8), J_i(9), J_i(10), J
               {"ftag": "1"}, {"ftag": "2"}, {"ftag": "5"}, {"ftag": "8"}, {"ftag": "35"}, {"ftag": "10"}, {"ftag": "454"}]
 ODD_TAGS = [J_s("01"), J_s(" 1"), J_s("-1"), J_i(-1), J_i(0), J_s("1.0"), {"float": "1.0"}, {"bool": True}, J_s("x"),
             J_s("١"), J_s("1_0"), J_s(""), J_s("+2"), J_s("2 "), {"none": 1}, {"bytes": "33"}, J_s("a=b|c"),
-            J_s("٢ "), J_s("1__0"), J_i(10 ** 30), {"fmsg": "A"}, {"fmsg": "1"}, J_s("\x1c1"), J_s("\ud800")]
+            J_s("٢ "), J_s("1__0"), J_i(10 ** 30), {"odd": "7"}, {"odd": ""}, {"odd": " 7"}, {"odd": "x"}, J_s("9" * 4301), J_s("1" * 4300), {"fmsg": "A"}, {"fmsg": "1"}, J_s("\x1c1"), J_s("\ud800")]
 STR_VALUES = ["a", "b", "c", "", "a|2=b", "x=y", ">", "[", "]", "1=>[2=x]", "#err#", "a, 2=b", "<class 'int'>", "0=>[]",
               "héllo", "5", "A", "1", " ", "|", "a|b", "\x01", "a\nb", "x" * 300, "8=FIX.4.4\x019=5"]
-OTHER_VALUES = [J_i(5), J_i(-3), J_i(0), {"float": "1.5"}, {"float": "1e22"}, {"float": "nan"}, {"fmsg": "A"}, {"fmsg": "D"},
+OTHER_VALUES = [{"odd": ""}, {"odd": "odd|1=x"}, J_i(5), J_i(-3), J_i(0), {"float": "1.5"}, {"float": "1e22"}, {"float": "nan"}, {"fmsg": "A"}, {"fmsg": "D"},
                 {"ftag": "1"}, {"none": 1}, {"bytes": "78"}, {"bool": True}, J_i(10 ** 25)]
 CLS_VALUES = [{"cls": n} for n in ("TagNotFoundError", "RepeatingTagError", "ValueError", "int", "str", "KeyboardInterrupt", "DuplicatedTagError")]
 DEFAULTS = [{"none": 1}, J_s("dflt"), J_i(0), {"float": "2.5"}, {"cls": "TagNotFoundError"}, {"cls": "RepeatingTagError"},
@@ -880,7 +1065,110 @@ def present_tags(o):
     return [J_s(t) for t in o.tags.keys()]
 
 
-def gen_sequence(rng, maxlen=30, odd=0.12, cls=0.06, clean_only=False, alias=0.12):
+BOOM_POOL = ["Boom", "Boom", "HardBoom", "KeyError", "TypeError", "AttributeError", "ValueError", "StopIteration",
+             "MemoryError", "FIXMessageError", "TagNotFoundError", "DuplicatedTagError"]
+
+
+def hostilize(rng, op):
+    """put an argument object whose conversion / iteration raises somewhere into the operation (at a random depth and
+    position: first, middle or last entry / item), or None if the operation has no place for one"""
+    op = json.loads(json.dumps(op))
+    cmd = op[0]
+
+    def boom():
+        b = {"boom": rng.choice(BOOM_POOL)}
+        if rng.random() < 0.1:
+            b["how"] = "nonstr"
+        return b
+
+    def spoil_lit(lit):
+        """make one entry of a literal hostile (value or key), possibly inside a nested item; or make the whole mapping
+        break midway"""
+        if isinstance(lit, dict) or not isinstance(lit, list):
+            return None
+        y = rng.random()
+        if y < 0.25 and lit:
+            return {"badmap": lit, "after": rng.randrange(len(lit)), "exc": rng.choice(BOOM_POOL)}
+        nested = [i for i, (k, v) in enumerate(lit) if isinstance(v, dict) and isinstance(v.get("list"), list) and v["list"]]
+        if nested and y < 0.55:
+            i = rng.choice(nested)
+            new = spoil_items(lit[i][1]["list"])
+            if new is not None:
+                lit[i][1] = {"list": new}
+                return lit
+        pos = rng.randrange(len(lit) + 1)
+        entry = [boom(), J_s("v")] if rng.random() < 0.3 else [J_i(rng.choice([11, 55, 58, 100 + rng.randrange(800)])), boom()]
+        lit.insert(pos, entry)
+        return lit
+
+    def spoil_items(items, top=False):
+        if not isinstance(items, list):
+            return None
+        y = rng.random()
+        if y < 0.2 and top:  # (nested in a dict literal a non-list iterable is an ordinary plain value)
+            return {"baditer": items, "after": rng.randrange(len(items) + 1), "exc": rng.choice(BOOM_POOL)}
+        dicts = [i for i, it in enumerate(items) if "dict" in it and isinstance(it["dict"], list)]
+        if dicts and y < 0.75:
+            i = rng.choice(dicts)
+            new = spoil_lit(items[i]["dict"])
+            if new is None:
+                return None
+            items[i] = {"dict": new} if isinstance(new, list) else new
+            return items
+        items.insert(rng.randrange(len(items) + 1), {"dict": [[J_i(1), J_s("ok")], [J_i(2), boom()]][: rng.choice([1, 2, 2])] + [[J_i(3), boom()]]})
+        return items
+
+    if cmd in ("set", "setitem"):
+        op[rng.choice([2, 3, 3])] = boom()
+        return op
+    if cmd in ("del", "get", "getitem", "contains", "isgroup", "grouplist", "byindex"):
+        op[2] = boom()
+        return op
+    if cmd == "bytag":
+        op[rng.choice([2, 3, 4, 4])] = boom()
+        return op
+    if cmd == "query":
+        op[2] = list(op[2]) + [boom()]
+        rng.shuffle(op[2])
+        return op
+    if cmd == "eqdict":
+        if not op[2]:
+            return None
+        op[2][rng.randrange(len(op[2]))][1] = boom()
+        return op
+    if cmd == "addgroup":
+        y = rng.random()
+        if y < 0.2:
+            op[2] = boom()
+        elif y < 0.4:
+            op[4] = rng.choice([{"float": "1.5"}, {"none": 1}, boom(), {"s": "0"}])
+        elif "dict" in op[3] and isinstance(op[3]["dict"], list):
+            new = spoil_lit(op[3]["dict"])
+            if new is None:
+                return None
+            op[3] = {"dict": new} if isinstance(new, list) else new
+        else:
+            op[3] = {"dict": [[J_i(1), J_s("ok")], [J_i(2), boom()]]}
+        return op
+    if cmd == "setgroup":
+        if rng.random() < 0.15:
+            op[2] = boom()
+            return op
+        new = spoil_items(op[3], top=True)
+        if new is None:
+            return None
+        op[3] = new
+        return op
+    if cmd in ("init", "initmsg"):
+        new = spoil_lit(op[-1])
+        if new is None:
+            return None
+        op[-1] = new
+        return op
+    return None
+
+
+def gen_sequence(rng, maxlen=30, odd=0.12, cls=0.06, clean_only=False, alias=0.12, hostile=0.03):
     """generate while executing on the implementation (so that operations mostly address existing tags).
     `alias`: how often argument objects (lists, dicts, item containers) are REUSED between operations / containers
     and mutated by the caller afterwards"""
@@ -892,6 +1180,13 @@ def gen_sequence(rng, maxlen=30, odd=0.12, cls=0.06, clean_only=False, alias=0.1
     counter = [0]
 
     def emit(op):
+        if hostile and rng.random() < hostile:
+            # the same call once more, BEFORE the real one, with an argument object whose conversion raises: it must fail
+            # and change nothing, and the real call afterwards must behave as if the failed one had never happened
+            h = hostilize(rng, op)
+            if h is not None and is_hostile_op(h):
+                impl.run(h)
+                seq.append(h)
         impl.run(op)
         seq.append(op)
 
@@ -986,7 +1281,7 @@ def gen_sequence(rng, maxlen=30, odd=0.12, cls=0.06, clean_only=False, alias=0.1
                 k = rng.choice(pt)
                 # respell a present canonical key now and then
                 s = k["s"]
-                if s.isascii() and s.isdigit() and str(int(s)) == s and rng.random() < 0.5:
+                if len(s) < 100 and s.isascii() and s.isdigit() and str(int(s)) == s and rng.random() < 0.5:
                     FTag = _lib()[2]
                     return rng.choice([J_i(int(s))] + ([{"ftag": s}] if s in FTag._value2member_map_ else []))
                 return k
@@ -1176,13 +1471,19 @@ def gen_eqdict(rng, g, obj):
     out = []
     for k, v in items:
         s = to_py(k)
-        if isinstance(s, str) and s.isascii() and s.isdigit() and str(int(s)) == s and rng.random() < 0.5:
+        if isinstance(s, str) and len(s) < 100 and s.isascii() and s.isdigit() and str(int(s)) == s and rng.random() < 0.5:
             k = J_i(int(s))
         pv = to_py(v)
-        if isinstance(pv, str) and pv.lstrip("-").isdigit() and pv.isascii() and str(int(pv)) == pv and rng.random() < 0.5:
+        if isinstance(pv, str) and len(pv) < 100 and pv.lstrip("-").isdigit() and pv.isascii() and str(int(pv)) == pv and rng.random() < 0.5:
             v = J_i(int(pv))
         out.append([k, v])
-    # a real dict cannot hold 1 and "1"... it can (different keys); keep the literal order, later equal keys overwrite
+    # one tag spelled twice: 1 and "1" are different dict keys (FTag.Account and "1" are the same one)
+    if out and rng.random() < 0.2:
+        k, v = rng.choice(out)
+        pk = to_py(k)
+        other = J_s(str(pk)) if isinstance(pk, int) and not isinstance(pk, bool) else (J_i(int(pk)) if isinstance(pk, str) and len(pk) < 10 and pk.isascii() and pk.isdigit() else None)
+        if other is not None:
+            out.insert(rng.randrange(len(out) + 1), [other, v if rng.random() < 0.7 else J_s("zz")])
     return out
 
 
@@ -1299,7 +1600,8 @@ def correspondence(ctx):
         elif mode < 7:
             seqs.append(gen_sequence(ctx.rng, odd=0.35, cls=0.15))
         elif mode < 8:
-            seqs.append(gen_sequence(ctx.rng, odd=0.03, cls=0.02, alias=0.5))  # argument objects reused / mutated by the caller
+            # argument objects reused / mutated by the caller; argument objects whose conversion raises
+            seqs.append(gen_sequence(ctx.rng, odd=0.03, cls=0.02, alias=0.5 if i % 20 < 10 else 0.12, hostile=0.05 if i % 20 < 10 else 0.35))
         else:
             seqs.append(gen_sequence(ctx.rng, clean_only=True, alias=0.12 if mode == 8 else 0.4))
     total, d_seq, stats, _ = 0, [], {"ops": {}, "replies": {}, "lengths": {}, "aliasing": {}}, None
@@ -1398,6 +1700,8 @@ def ref_tag(o):
         return int(o.value)
     if isinstance(o, enum.Enum):
         raise OutOfDomain("non-tag enum member used as tag")
+    if isinstance(o, (Odd, Hostile)):
+        raise OutOfDomain("an object that is neither int, str nor tag enum used as tag: the property does not say")
     if isinstance(o, int):
         return o
     if type(o) is str:
@@ -1688,6 +1992,11 @@ class RefStore:
         if cmd in CALLER_OPS:
             self.pools.caller_op(op)  # the caller's own business: no container may change
             return {"pong"}
+        if is_hostile_op(op):
+            # an argument object whose conversion / iteration raises: a mutator cannot succeed (the object sits where the
+            # call has to convert it) – it must fail, with whatever exception, and leave EVERY container as it was;
+            # for the other operations only "nothing changes" is specified
+            return {ANY_ERROR} if cmd in MUTATORS else None
         op = self.last_op = self.pools.inline_op(op)  # arguments are read by value at the moment of the call
         try:
             return self._run(cmd, op)
@@ -1804,21 +2113,25 @@ class RefStore:
             b = self.need(op[2])
             return {str(c.canon() == b.canon())}
         if cmd == "eqdict":
-            dk = {}
+            dk = {}  # tag -> every value the dict gives for it (a tag may be spelled twice: 1 and "1")
             for kj, vj in op[2]:
                 v = to_py(vj)
                 if isinstance(v, type):
                     raise OutOfDomain("class in dict")
                 k = ref_tag(to_py(kj))
-                dk[("bad", str(to_py(kj))) if k is None else k] = str(v)
+                dk.setdefault(("bad", str(to_py(kj))) if k is None else k, []).append(str(v))
             mine = {k for k in c.d if k not in FRAMING}
             theirs = {k for k in dk if k not in FRAMING}
             if mine != theirs:
                 return {"False"}
-            mismatch = any(isinstance(c.d[k], str) and c.d[k] != dk[k] for k in theirs)
+            plain = [k for k in theirs if isinstance(c.d[k], str)]
+            all_match = all(v == c.d[k] for k in plain for v in dk[k])
+            none_match = any(all(v != c.d[k] for v in dk[k]) for k in plain)
+            # a dict that gives one tag two different values contradicts itself: either answer is acceptable
+            verdict = {"True"} if all_match else {"False"} if none_match else {"True", "False"}
             if any(isinstance(c.d[k], list) for k in theirs):
-                return {"err FIXMessageError"} | ({"False"} if mismatch else set())
-            return {str(not mismatch)}
+                return {"err FIXMessageError"} | (verdict - {"True"})
+            return verdict
         if cmd in ("str", "repr"):
             return None
         raise ValueError(op)
@@ -1982,20 +2295,33 @@ def oracle_run(ops, all_failures=False):
         iop = ref.last_op
         if isinstance(observed, list):
             observed = observed[-1]
-        if acceptable is not None and observed not in acceptable:
+        if is_hostile_op(op):
+            observed = getattr(impl, "last_hostile", observed)
+            if isinstance(observed, list):
+                observed = observed[-1]
+        raised = isinstance(observed, str) and observed.startswith("err ")
+        if acceptable == {ANY_ERROR} and not raised:
+            fail = {"signature": f"C18-hostile-argument-accepted:{op[0]}",
+                    "what": f"{op[0]} with an argument object whose conversion / iteration raises replied {observed} instead of failing",
+                    "input": {"ops": ops[: i + 1]}, "expected": [ANY_ERROR], "observed": observed}
+        elif acceptable == {ANY_ERROR}:
+            pass
+        elif acceptable is not None and observed not in acceptable:
             fail = {"signature": classify(iop, acceptable, observed, impl, ref_before),
                     "what": f"{op[0]} replied {observed}, the reference ordered map allows {sorted(acceptable)}",
                     "input": {"ops": ops[: i + 1]}, "expected": sorted(acceptable), "observed": observed}
-        elif got != want:
+        if fail is None and got != want:
             changed = {k for k in set(got) | set(want) if got.get(k) != want.get(k)}
             own = {parse_ref(iop[1])[0]} if len(iop) > 1 and isinstance(iop[1], str) and iop[0] not in CALLER_OPS else set()
             if iop[0] == "copy":
                 own = {iop[2]}
             sig = (f"C18-content-changed-without-own-operation:{iop[0]}" if changed - own
+                   else f"C18-failed-operation-changed-container:{iop[0]}" if raised
                    else classify(iop, acceptable, observed, impl, ref_before, state_only=True))
             fail = {"signature": sig,
                     "what": f"after {op[0]} (reply {observed}) the containers {sorted(changed)} differ from the reference ordered map"
-                    + (" – a container changed although no operation addressed it" if changed - own else ""),
+                    + (" – a container changed although no operation addressed it" if changed - own else
+                       " – the operation raised, so the container must be exactly as before" if raised else ""),
                     "input": {"ops": ops[: i + 1]}, "expected": {k: canon_dump(v[1]) for k, v in want.items()},
                     "observed": {k: canon_dump(v[1]) for k, v in got.items()}}
         if fail:
@@ -2008,7 +2334,8 @@ def oracle_run(ops, all_failures=False):
 def gen_oracle_sequence(rng, dirty):
     """clean stream: canonical tag spellings and clearly non-integer tags, values str/int/float/enum/None/bytes;
     dirty stream: adds the non-canonical decimal spellings"""
-    seq = gen_sequence(rng, maxlen=25, odd=0.0, cls=0.0, clean_only=True, alias=rng.choice([0.0, 0.12, 0.12, 0.5]))
+    seq = gen_sequence(rng, maxlen=25, odd=0.0, cls=0.0, clean_only=True, alias=rng.choice([0.0, 0.12, 0.12, 0.5]),
+                       hostile=rng.choice([0.0, 0.05, 0.05, 0.4]))
     extra = [J_s("x"), {"float": "1.0"}, J_s("1.0"), {"none": 1}, J_s("")] + ([J_s("01"), J_s(" 1"), J_s("+2"), J_s("1_0"), J_s("١")] if dirty else [])
     out = []
     for op in seq:
